@@ -57,6 +57,12 @@ func specs() []*Spec {
 			Rule:  "E1: the multi-scalar routine called directly on heaps filled as VerifyBatch fills them (count 2n+1; quick n in {4..8,33,63,64}, thorough every n in 4..64) x 20 scalar profiles (hash-like, r=0/1/equal/one-nonzero/first-zero/max, S in top slice, common factors 2,3,4,6,8,2^64,3*2^100 so that the final Bos-Coster scalar is > 1, 56/112/168-bit maxima, 2^127, L-1) x point profiles (honest, same point, P/-P pairs, identity, mixed-order, all torsion) vs sum [s_i]P_i computed by the model through known discrete logs; E2: all sequences of <= 3 chunk sizes from {4,5,63,64} on one reused heap vs a fresh heap; vartime helpers on all pairs of limb-boundary values for every admissible limbSize vs big.Int; end to end with the fallback hook: all-valid batches of sizes 4..200 (quick: 32 sizes around chunk boundaries) x 4 compositions x 3 variants x entropy {zero, 4 DRBG, 0xff, const}: accepted with zero fallbacks (degenerate constant streams reported, not required). non-trivial = collection not all-zero.",
 			Assume: append(trusted, "points are supplied through UnpackVartime and read back through Pack (decided by C10)"),
 		},
+		{
+			ID:    "C06",
+			Units: []Unit{{Pkg: "", Job: "C06", Quick: def, Thorough: []string{"default", "force32bit"}}},
+			Rule:  "E1 (deviation = number of bad entries): batch length n in {0..9,62..69,126..131,192,193,200} x 6 option sets (3 variants x default/ZIP-215); level 0: all-good x 5 entropy streams (2 DRBG, zero, 0xff, counter); level 1: 15 bad kinds (wrong message, R/S/key bit flip, S+L, valid S in [2^252,L), small-order key/R, undecodable key/R, key 31/nil, signature 63/nil, bad pre-hash or nil message) at every position (n<=9) or at interesting positions {0..3,61..67,125..131,n-4..n-1}; level 2: position pairs x kind pairs (n<=8 all pairs; larger n interesting pairs); thorough adds level 3 for n<=8; unsupported hash selector. E2 (chunk sequences): all sequences of <= 3 full chunks over 7 chunk kinds (fast path, S>=L without fallback, fallback by bad signature / malformed key at last slot / small-order R at slot 0 / bad pre-hash, early break by short signature) x remainder 0..3 x remainder kind; last chunk compared with the same chunk as first chunk of a fresh call. Oracle: per entry well-formedness AND ref.Verify == implementation's single verification == batch entry; summary == AND; len(valid)==n; err==nil. Invalid entries only under DRBG entropy.",
+			Assume: append(trusted, "when an entry is invalid the statement allows failure with probability < 2^-120 over the entropy stream: DRBG streams (seeded by VERIF_SEED) are used as fixed alphabet members"),
+		},
 		// NEXT-SPEC
 		{
 			ID: "C04",
